@@ -194,11 +194,18 @@ type PoolCase struct {
 func genPoolCase(t *rapid.T) PoolCase {
 	var c PoolCase
 	n := rapid.IntRange(1, 4).Draw(t, "nconns")
-	wbuf := genBuf(t, "wbuf") // "a single pool for each unique value of WriteBufferSize"
+	wbuf := genBuf(t, "wbuf") // "a single pool for each unique value of WriteBufferSize" is advice: mixing sizes happens
+	wbuf2 := wbuf
+	if rapid.IntRange(0, 3).Draw(t, "mixed_sizes") == 0 {
+		wbuf2 = genBuf(t, "wbuf2")
+	}
 	for i := 0; i < n; i++ {
 		var pc PoolConn
 		pc.W.Server = rapid.Bool().Draw(t, "server")
 		pc.W.WriteBuf = wbuf
+		if i%2 == 1 {
+			pc.W.WriteBuf = wbuf2
+		}
 		pc.W.Pool = true
 		pc.W.Compress = rapid.Bool().Draw(t, "compress")
 		pc.Steps = genWriteProgram(t, pc.W.EffWriteBuf(), WGenOpts{MaxSteps: 5, AllowHuge: false, AllowBad: true, AllowClose: true, AllowCtl: true})
